@@ -2787,3 +2787,36 @@ def _string_push(I, a, d):
     b = peel(a[0])
     b.sb = b.sb + chr(a[1]).encode("utf-8")
     return UNIT
+
+
+@T.path("std::path::Path::ancestors")
+def _path_ancestors(I, a, d):
+    s = as_sbytes(a[0])
+    is_abs, comps = path_components(s)
+    out = []
+    for k in range(len(comps), -1, -1):
+        if k == 0 and not is_abs:
+            if comps:
+                out.append(BytesRef(SBytes(), "path"))
+            break
+        out.append(BytesRef(path_from(is_abs, comps[:k]), "path"))
+    return RIter.from_list(out)
+
+
+@T.path("std::path::Path::components", "std::path::Path::iter")
+def _path_components_iter(I, a, d):
+    raise Inconclusive("Path::components is not modelled")
+
+
+@T.path("std::path::Path::strip_prefix")
+def _path_strip_prefix(I, a, d):
+    ia, ca = path_components(as_sbytes(a[0]))
+    ib, cb = path_components(as_sbytes(a[1]))
+    if ia != ib or len(cb) > len(ca) or any(x.key() != y.key() for x, y in zip(ca, cb)):
+        return ERR(Agg("struct", "StripPrefixError", []))
+    return OK(BytesRef(path_from(False, ca[len(cb):]), "path"))
+
+
+@T.path("std::path::Path::extension", "std::path::Path::file_stem", "std::path::Path::with_extension", "std::path::Path::with_file_name")
+def _path_misc(I, a, d):
+    raise Inconclusive("Path API %s is not modelled" % d.get("raw"))
